@@ -274,6 +274,7 @@ class MultiTanProcessor(object):
 
     def _tile_parallel(self, pio, cli_progress, parallel, **kwargs):
         import multiprocessing as mp
+        from .par_util import check_workers, put_checking_workers
 
         # Start up the workers
 
@@ -293,7 +294,7 @@ class MultiTanProcessor(object):
 
         with progress_bar(total=len(self._descs), show=cli_progress) as progress:
             for image, desc in zip(self._collection.images(), self._descs):
-                queue.put((image, desc))
+                put_checking_workers(queue, (image, desc), workers, done_event)
                 progress.update(1)
 
         # Finish up
@@ -304,6 +305,8 @@ class MultiTanProcessor(object):
 
         for w in workers:
             w.join()
+
+        check_workers(workers)
 
 
 def _mp_tile_worker(queue, done_event, pio, _kwargs):
